@@ -756,8 +756,10 @@ func ghostSend(t int, el uint8) {
 		if !p.Exists {
 			continue
 		}
+		// finished applying: recorded in the proposal, or (a process stop between the two writes) already recorded in the
+		// configuration's applied index, which is what the protocol goes by
 		done := (p.Apply.Present && p.Apply.State != int32(configapi.ProposalApplyPhase_APPLYING)) ||
-			(p.Abort.Present && p.Abort.State == int32(configapi.ProposalAbortPhase_ABORTED))
+			(p.Abort.Present && p.Abort.State == int32(configapi.ProposalAbortPhase_ABORTED)) || c.Applied >= uint8(i+1)
 		if !done {
 			S.SendOutOfOrder = true
 		}
